@@ -35,6 +35,24 @@ def r_except(ctx):
                            ok, "handler names exception classes" if ok else
                            "`except %s:` evaluates to an instance / non-class: matching raises TypeError instead of handling the error" % src(h.type),
                            loc(fn, h))
+                    # a handler that catches everything (bare / Exception / BaseException), or any handler around the call of the solve root, ends
+                    # by raising on every path: otherwise a failure -- the documented ValueError of an invalid option included -- is turned into
+                    # a normal answer
+                    broad = h.type is None or (dotted(h.type) or "").split(".")[-1] in ("Exception", "BaseException") or \
+                        (isinstance(h.type, ast.Tuple) and any((dotted(e0) or "").split(".")[-1] in ("Exception", "BaseException") for e0 in h.type.elts))
+                    try:
+                        root_name = common.solve_root(ctx.repo).name
+                    except AnalysisError:
+                        root_name = None
+                    around_root = root_name is not None and any(isinstance(c0, ast.Call) and call_name(c0) == root_name for b0 in node.body for c0 in ast.walk(b0))
+                    if broad or around_root:
+                        pc = flow.path_counts(h.body, lambda nd: False)
+                        swallow = sorted(k0 for k0 in pc if k0 in ("next", "return", "break", "continue"))
+                        ctx.ob("R-EXCEPT", "%s::%s::except %s re-raises" % (fn._module.rel, qualname(fn), src(h.type) if h.type is not None else ""),
+                               not swallow, "the handler ends by raising on every path" if not swallow else
+                               "the handler of `except %s` completes normally on some path (%s): whatever failed inside the try block -- an invalid option "
+                               "rejected by a ValueError, a solver failure -- is turned into a normal result" % (src(h.type) if h.type is not None else "", ", ".join(swallow)),
+                               loc(fn, h))
     ctx.count("except clauses", n)
     return n
 
@@ -173,6 +191,68 @@ def r_unsolved(ctx):
             ctx.ob("R-UNSOLVED", key + "::returns", not bad, "returns the computed value" if not bad else "returns %s" % bad, where)
     ctx.count("accessors", n)
     return n
+
+
+def r_unsolved_program(ctx):
+    """Point.eval and Expression.eval unrolled (sa/miniint.py) in the state before any successful solve: no leaf has a value and the class-level
+    attributes hold what the class body gives them (the counters stand at the number of leaves).  For a leaf and for a combination of leaves the
+    outcome must be the documented ValueError -- raised by the accessor itself or by the accessor of the first leaf it asks -- and nothing else may
+    fail on the way (an allocation sized by an attribute that only a solve fills, say)."""
+    from ..miniint import IndexInterp, SymObj
+    repo = ctx.repo
+    n = 0
+    for cname in ("Point", "Expression"):
+        cls = repo.cls(cname)
+        fn = cls.methods.get("eval")
+        if fn is None:
+            continue
+        ctx.unit("%s.eval" % cname)
+        pts = [SymObj("Point", label="p%d" % k, counter=k, _is_leaf=True, _value=None) for k in range(2)]
+        exs = [SymObj("Expression", label="e%d" % k, counter=k, _is_leaf=True, _value=None) for k in range(2)]
+        for o in pts + exs:
+            o.attrs["decomposition_dict"] = {o: 1}
+        derived = {"Point": SymObj("Point", label="2 p0 - p1", counter=None, _is_leaf=False, _value=None, decomposition_dict={pts[0]: 2, pts[1]: -1}),
+                   "Expression": SymObj("Expression", label="e1 + 3 <p0, p1> + 5", counter=None, _is_leaf=False, _value=None,
+                                        decomposition_dict={exs[1]: 1, (pts[0], pts[1]): 3, 1: 5})}
+        for what, obj in (("leaf", (pts if cname == "Point" else exs)[0]), ("combination", derived[cname])):
+            env = {"Point": ("type", "Point"), "Expression": ("type", "Expression"), "tuple": ("type", "tuple"), "int": ("type", "int"), "float": ("type", "float")}
+            for k0 in ("Point", "Expression"):
+                for a0, v0 in repo.cls(k0).class_attrs.items():
+                    if isinstance(v0, ast.Constant):
+                        env["%s.%s" % (k0, a0)] = v0.value
+                env[k0 + ".counter"] = 2
+            env["Point.list_of_leaf_points"] = list(pts)
+            env["Expression.list_of_leaf_expressions"] = list(exs)
+            env[params_of(fn)[0]] = obj
+
+            def on_call(node, it):
+                nm = call_name(node)
+                if isinstance(node.func, ast.Attribute) and nm in ("eval", "get_is_leaf") and not node.args:
+                    try:
+                        o = it.ev(node.func.value)
+                    except AnalysisError:
+                        return NotImplemented
+                    if isinstance(o, SymObj) and nm == "get_is_leaf":
+                        return o.attrs["_is_leaf"]
+                    if isinstance(o, SymObj) and o.attrs.get("_is_leaf") and o.attrs.get("_value") is None:
+                        raise AnalysisError("the index program raises: `raise ValueError` (accessor of the leaf %s, which has no value)" % o.attrs["label"])
+                return NotImplemented
+            it = IndexInterp(env, on_call=on_call, check_asserts=True)
+            msg = None
+            try:
+                ret = it.run(fn.body)
+                msg = "returns `%r` although no leaf has a value" % (ret,)
+            except AnalysisError as ex:
+                t = str(ex)
+                if "the index program raises" not in t:
+                    ctx.notes.append("R-UNSOLVED program for %s.eval skipped: %s" % (cname, t))
+                    continue
+                if "raise ValueError" not in t:
+                    msg = "fails with something else than the documented ValueError: %s" % t.replace("the index program raises: ", "")
+            n += 1
+            ctx.ob("R-UNSOLVED", "%s.eval::before any solve, %s (unrolled)" % (cname, what), msg is None,
+                   "raises the documented ValueError" if msg is None else msg, loc(fn, fn))
+    ctx.count("unsolved-state programs", n)
 
 
 def r_operand_access(ctx):
@@ -555,6 +635,7 @@ def r_raise_message(ctx):
 def run(ctx):
     ne = r_except(ctx)
     na = r_unsolved(ctx)
+    r_unsolved_program(ctx)
     r_raise_message(ctx)
     r_operand_access(ctx)
     translate.r_evalshape(ctx)    # every term of a combination is evaluated (through its accessor), whatever its coefficient: an unsolved leaf always raises
